@@ -1,0 +1,106 @@
+//go:build verif
+
+// Contracts and ghost specification functions for the deductive verifier in
+// /verif (govc). Only compiled with -tags verif.
+
+package snap
+
+//@ func assert_
+//@   requires b
+
+// assert_ is a ghost assertion: its precondition is an obligation at every call.
+func assert_(b bool) {}
+
+// ---- epochs -------------------------------------------------------------------
+
+//@ func specCnt
+//@   pure
+
+// number of elements of an epoch list, the empty list standing for {0}
+func specCnt(s []uint32) int {
+	if len(s) == 0 {
+		return 1
+	}
+	return len(s)
+}
+
+//@ func specElem
+//@   pure
+
+func specElem(s []uint32, i int) uint32 {
+	if len(s) == 0 {
+		return 0
+	}
+	return s[i]
+}
+
+//@ func intersect
+//@   props C35
+//@   ensures result == (exists i int, j int :: 0 <= i && i < len(rs) && 0 <= j && j < len(ws) && rs[i] == ws[j])
+//@   loop 0: invariant -1 <= idx0 && idx0 < len(rs)
+//@   loop 0: invariant forall i int, j int :: 0 <= i && i <= idx0 && 0 <= j && j < len(ws) ==> rs[i] != ws[j]
+//@   loop 1: invariant -1 <= idx1 && idx1 < len(ws) && 0 <= idx0 && idx0 < len(rs) && r == rs[idx0]
+//@   loop 1: invariant forall j int :: 0 <= j && j <= idx1 ==> rs[idx0] != ws[j]
+
+//@ func isIncreasing
+//@   props C35
+//@   ensures result == (forall k int :: 0 <= k && k+1 < len(z) ==> z[k] < z[k+1])
+//@   loop 0: invariant -1 <= idx0 && idx0 < len(z)-1 && len(z) >= 2
+//@   loop 0: invariant forall k int :: 0 <= k && k <= idx0 ==> z[k] < z[k+1]
+
+//@ func epochListEq
+//@   props C35
+//@   ensures result == (len(a) == len(b) && forall k int :: 0 <= k && k < len(a) ==> a[k] == b[k])
+//@   loop 0: invariant -1 <= idx0 && idx0 < len(a) && len(a) == len(b)
+//@   loop 0: invariant forall k int :: 0 <= k && k <= idx0 ==> a[k] == b[k]
+
+//@ func (*Epoch).CanRead
+//@   props C35
+//@   ensures e != nil ==> result == (exists i int, j int :: 0 <= i && i < specCnt(e.Read) && 0 <= j && j < specCnt(other.Write) && specElem(e.Read, i) == specElem(other.Write, j))
+//@   ensures e == nil ==> result == (exists j int :: 0 <= j && j < specCnt(other.Write) && 0 == specElem(other.Write, j))
+
+//@ func (*Epoch).Validate
+//@   props C35
+//@   requires e != nil
+//@   ensures result == nil ==> e.IsZero() || (len(e.Read) >= 1 && len(e.Read) <= 10 && len(e.Write) >= 1 && len(e.Write) <= 10)
+//@   ensures result == nil && !e.IsZero() ==> (forall k int :: 0 <= k && k+1 < len(e.Read) ==> e.Read[k] < e.Read[k+1]) && (forall k int :: 0 <= k && k+1 < len(e.Write) ==> e.Write[k] < e.Write[k+1])
+//@   ensures result == nil && !e.IsZero() ==> exists i int, j int :: 0 <= i && i < len(e.Read) && 0 <= j && j < len(e.Write) && e.Read[i] == e.Write[j]
+
+//@ func lemValidCanReadSelf
+//@   lemma
+//@   props C35
+
+// every valid epoch can read its own data
+func lemValidCanReadSelf(e *Epoch) {
+	if e != nil && e.Validate() == nil {
+		assert_(e.CanRead(*e))
+	}
+}
+
+// ---- revisions ----------------------------------------------------------------
+
+//@ func (Revision).String
+//@   props C35
+//@   ensures r.N == 0 ==> result == "unset"
+//@   ensures r.N > 0 ==> result == strconv.Itoa(r.N)
+//@   ensures r.N < 0 ==> result == "x" + strconv.Itoa(-r.N)
+
+//@ func ParseRevision
+//@   props C35
+//@   ensures result1 == nil <==> (s == "unset" || (len(s) >= 1 && s[0] == 'x' && atoiOK(s[1:]) && atoiVal(s[1:]) > 0) || (atoiOK(s) && atoiVal(s) > 0))
+//@   ensures s == "unset" ==> result0.N == 0
+//@   ensures result1 == nil && s != "unset" && len(s) >= 1 && s[0] == 'x' && atoiOK(s[1:]) && atoiVal(s[1:]) > 0 ==> result0.N == -atoiVal(s[1:])
+//@   ensures result1 == nil && s != "unset" && !(len(s) >= 1 && s[0] == 'x' && atoiOK(s[1:]) && atoiVal(s[1:]) > 0) ==> result0.N == atoiVal(s)
+//@   ensures result1 != nil ==> result0.N == 0
+
+//@ func lemRevisionRoundTrip
+//@   lemma
+//@   props C35
+//@   requires r.N > -9223372036854775808
+
+// every revision reads back unchanged from its string form
+func lemRevisionRoundTrip(r Revision) {
+	p, err := ParseRevision(r.String())
+	assert_(err == nil)
+	assert_(p.N == r.N)
+}
